@@ -149,7 +149,7 @@ class TimeLine:
         import z3
         c = []
         for p in names:
-            c += [v[p + "_nano"] == 0, v[p + "_offset"] % 3600 == 0, v[p + "_zonekind"] != 1, v[p + "_zoneid"] == WARSAW,
+            c += [v[p + "_nano"] == 0, v[p + "_offset"] % 3600 == 0, v[p + "_zonekind"] != 1, v[p + "_zoneid"] == WARSAW, v[p + "_year"] >= 1900, v[p + "_year"] <= 2100,
                   z3.Implies(v[p + "_zonekind"] == 3, z3.And(v[p + "_year"] == 2021, z3.Not(z3.And(v[p + "_hour"] == 2, z3.Or(z3.And(v[p + "_month"] == 3, v[p + "_day"] == 28),
                                                                                                                             z3.And(v[p + "_month"] == 10, v[p + "_day"] == 31))))))]
         for kind, a, val_, dfd in self.apps:
@@ -278,9 +278,13 @@ def jobs(check, mirror, rb, known_pred):
                 return False, "witness needs a zone the replay does not know"
             d = py_instant(i, "a") - py_instant(i, "b")
             bad, seen = False, []
-            for op, want in (("<", d < 0), ("=", d == 0), (">", d > 0)):
-                _, out, _ = replay_call(rb, ["feel", "%s %s %s" % (lit(i, "a"), op, lit(i, "b"))])
-                seen.append("%s %s" % (op, out[6:20].strip()))
+            # `<` and `>` on date-and-time values are not implemented by the evaluator (null): the order is observed through equality and half-open ranges
+            lo, hi = 'date and time("0001-01-01T00:00:00Z")', 'date and time("9999-12-31T23:59:59Z")'
+            for what, expr, want in (("=", "%s = %s" % (lit(i, "a"), lit(i, "b")), d == 0),
+                                     ("before", "%s in [%s..%s)" % (lit(i, "a"), lo, lit(i, "b")), d < 0),
+                                     ("after", "%s in (%s..%s]" % (lit(i, "a"), lit(i, "b"), hi), d > 0)):
+                _, out, _ = replay_call(rb, ["feel", expr])
+                seen.append("%s %s" % (what, out[6:20].strip()))
                 bad = bad or out.strip() != "VALUE " + str(want).lower()
             return bad, "%s ? %s: %s; the instants are %d ns apart" % (lit(i, "a"), lit(i, "b"), ", ".join(seen), d)
         decide(c, crate, "datetime_compare", setup, post, replay, rb, enums=dict(ZONE_ENUM, Ordering={"Less": -1, "Equal": 0, "Greater": 1}), models=T.models(), describe=desc,
